@@ -214,12 +214,24 @@ def big_database(n: int, layout: str = 'none'):
     v = mmref.verify_db(st)
     frames = {k: f for k, f in v.labels.items() if isinstance(f, mmref.Frame)}
     sel = ks
-    t = A(sel[-1])
-    for k in reversed(sel[:-1]):
-        t = IMP(A(k), t)
-    target = IMP(t, IMP(A('c0'), t))
-    tree = apply('proof-rule-prop-1', frames, {'ph0': t, 'ph1': A('c0')}, [])
-    proof = mmref.encode_compressed(tree, [], layout)
+    def bal(lst):
+        # a balanced tree: every constant is mentioned, the nesting depth stays logarithmic
+        if len(lst) == 1:
+            return A(lst[0])
+        h = len(lst) // 2
+        return IMP(bal(lst[:h]), bal(lst[h:]))
+    t = bal(sel)
+    # in the 'every' layout the big term is used twice, so that its second occurrence is one reference to a late mark
+    second = t if layout == 'every' else A('c0')
+    target = IMP(t, IMP(second, t))
+    tree = apply('proof-rule-prop-1', frames, {'ph0': t, 'ph1': second}, [])
+    if layout == 'every':
+        # marks after the first 150 steps of the big term's well-formedness proof (more would exceed the 256 memory slots of
+        # the proof format); its second occurrence is then ONE reference to a mark numbered far beyond the labels
+        first = mmref.tree_size(tree[1][0])
+        proof = mmref.encode_compressed_marks(tree, [], frozenset(range(1, 1 + min(first, 150))), 'latest')
+    else:
+        proof = mmref.encode_compressed(tree, [], layout)
     return st + [('p', 'goal', (TH, target), proof)], target
 
 
@@ -250,5 +262,11 @@ def many_vars_database(layout: str = 'none', swap: bool = False, with_lemma: boo
         tree = apply('l11', frames, {'ph2': a, 'ph10': b}, [])
     else:
         tree = apply('ax-m', frames, {'ph2': a, 'ph10': b}, [])
-    proof = mmref.encode_compressed(tree, [], layout)
+    if layout == 'every':
+        # marks after the first 150 steps of the big term's well-formedness proof (more would exceed the 256 memory slots of
+        # the proof format); its second occurrence is then ONE reference to a mark numbered far beyond the labels
+        first = mmref.tree_size(tree[1][0])
+        proof = mmref.encode_compressed_marks(tree, [], frozenset(range(1, 1 + min(first, 150))), 'latest')
+    else:
+        proof = mmref.encode_compressed(tree, [], layout)
     return st + [('p', 'goal', (TH, target), proof)], target
